@@ -9,13 +9,14 @@ from harness.ns import QNAMES
 
 ID = "C11"
 LEVEL_TEXT = ("Lean 4 theorems about the executable model of the code (all inputs, by induction), tied to /repo by tables regenerated on every run (decide) and by differential execution of model and implementation; the property oracle is also run on the implementation for every case. Composition, arity guard and wrapping are proved; 'the chain returns the left-to-right set algebra of its operands' is executed on SQLite.")
-LEAN_MODULES = ["Pypika.Props.C11", "Pypika.Props.Builder"]
+LEAN_MODULES = ["Pypika.Props.C11", "Pypika.Props.Builder", "Pypika.SetFrame"]
 TRACE_BUILDER = True   # builder calls made by this check are also run through Pypika.B.step (harness/trace.py)
 THEOREMS = ["Pypika.C11.ops_in_order", "Pypika.C11.arity_mismatch_raises", "Pypika.C11.arity_ok_no_raise",
             "Pypika.C11.setop_layout", "Pypika.C11.operand_wrapped_iff",
             # set-operation builder (Builder.lean stepS / mkSetOp, tied call by call through harness/trace.py)
-            "Pypika.B.setop_ops_in_call_order", "Pypika.B.mkSetOp_shape", "Pypika.B.setop_ops_frame"]
-AGREE = ["Pypika.Agree.setop_pagination", "Pypika.Agree.classes_complete"]
+            "Pypika.B.setop_ops_in_call_order", "Pypika.B.mkSetOp_shape", "Pypika.B.setop_ops_frame",
+            "Pypika.B.stepS_frame"]
+AGREE = ["Pypika.Agree.setop_pagination", "Pypika.Agree.classes_complete", "Pypika.Agree.setop_writes_agree"]
 TRUSTED = ["sqlite3 3.40 for the execution clause; Python list/set algebra as the reference for UNION / UNION ALL / INTERSECT / EXCEPT"]
 RULE = ("chains of 2-8 operands over every mix of union / union_all / intersect / except_of / minus and the + * - operators, "
         "operands of 1-3 selected terms (equal or deliberately unequal arity), trailing ORDER BY / LIMIT / OFFSET, the chain "
